@@ -494,6 +494,11 @@ class View:
     def _set(self, d, idx, v):
         i = idx[0]
         if isinstance(i, slice):
+            n_ = len(d)
+            i = slice(concretize(i.start, range(0, n_ + UNWIND)), concretize(i.stop, range(0, n_ + UNWIND)),
+                      concretize(i.step, range(1, 4)))
+            if not self.boundscheck and ((i.stop is not None and i.stop > n_) or (i.start is not None and i.start > n_)):
+                raise MemorySafety(f"slice {i.start}:{i.stop} outside [0,{n_}] on {self.name}")
             rng = range(*i.indices(len(d)))
             if len(idx) == 1:
                 if isinstance(v, list):
@@ -603,6 +608,18 @@ def _merge(cond, a, b):
         return a
     # fall back to forking
     return a if bool(cond) else b
+
+
+def concretize(x, candidates):
+    """fork a symbolic C integer over a finite candidate list (deterministic order)"""
+    if isinstance(x, CInt):
+        if x.concrete:
+            return x.e
+        for v in candidates:
+            if bool(x == v):
+                return v
+        raise PathAbort()
+    return x
 
 
 def coerce(t, v):
